@@ -182,7 +182,7 @@ contract(
 
 # ---------------------------------------------------------------- find_coordinates: the placement is a proper rigid motion
 contract(
-    "pdb2pqr.quatfit:find_coordinates", "C15",
+    "pdb2pqr.quatfit:find_coordinates", ["C15", "C05"],
     params={"numpoints": Const(3), "refcoords": ListOf(V3(), 3), "defcoords": ListOf(V3(), 3), "defatomcoords": V3()},
     requires=[],
     ensures=[
@@ -196,7 +196,7 @@ contract(
 )
 
 
-@harness("C15",
+@harness(["C15", "C05"],
          params={"a": V3(), "b": V3(), "q": ListOf(Real, 4), "refcenter": V3(), "fitcenter": V3()},
          requires=["dot4(q, q) == 1"],
          ensures=[
